@@ -181,10 +181,16 @@ def check_history(arg):
     lines, query_each = arg
     fails = []
     w = None
+    limit = 4
     for i, line in enumerate(lines):
+        if line.startswith("limit="):
+            limit = int(line[6:])
+            if w is not None:
+                w.max_ncwb = limit
+            continue
         try:
             if w is None:
-                w = Wildcard(line, max_ncwb=4)
+                w = Wildcard(line, max_ncwb=limit)
             else:
                 w.line = line
             accepted = True
@@ -192,6 +198,22 @@ def check_history(arg):
             accepted = False
         if w is None:
             continue
+        # limits reject, never approximate: an accepted line needs at most `limit` non-contiguous bits
+        if accepted:
+            mt = line.split()[1]
+            mv = 0
+            for o in mt.split("."):
+                mv = mv * 256 + int(o)
+            r_ = 0
+            while r_ < 32 and (mv >> r_) & 1:
+                r_ += 1
+            k_ = bin(mv >> r_).count("1") if r_ < 32 else 0
+            if k_ > limit:
+                fails.append(dict(key="bounded/Wildcard.history:limit", what=f"after {lines[:i + 1]}: line {line!r} needs {k_} non-contiguous bits but was accepted with limit {limit}",
+                                  inputs=dict(lines=list(lines[:i + 1])),
+                                  cmd=("import sys; sys.path.insert(0, 'props'); import C05\n"
+                                       f"fails, _ = C05.check_history({arg!r})\nprint([f['what'] for f in fails]); sys.exit(1 if fails else 0)\n")))
+                break
         if accepted or True:
             cur = w.line
             try:
@@ -211,8 +233,24 @@ def check_history(arg):
     return fails, 1
 
 
+def replay_line_fset(model, ob):
+    """native search for a reassignment history on which a derived value does not describe the current line"""
+    pool = ["10.0.0.0 0.0.1.3", "10.0.0.0 0.0.0.255", "10.0.1.0 0.0.0.255", "20.0.0.0 0.0.1.3", "10.0.0.0 0.0.3.3", "limit=0", "limit=1"]
+    for n in (2, 3):
+        for h in itertools.product(pool, repeat=n):
+            fails, _ = check_history((h, True))
+            if fails:
+                f = fails[0]
+                return dict(violates=True, inputs=f["inputs"], what=f["what"], cmd=f["cmd"], key="wildcard.Wildcard.line.fset/post[describes the new line]")
+    return dict(violates=False)
+
+
 def main(chk):
+    from pyvc import contract as C
+    import contracts.c_wildcard  # noqa
+    C.REGISTRY["cisco_acl.wildcard.Wildcard.line.fset"].replay = replay_line_fset
     chk.prove(["c_wildcard"])
+    chk.replay_refuted()
     chk.lemmas(lemmas())
     # memo coherence
     from pyvc.engine import Obligation
@@ -252,7 +290,8 @@ def main(chk):
                     len(cases), len(cases), f"{len(ms)} masks (all 33 contiguous, all <= 3-bit non-contiguous patterns over 12 positions, mixed) x 3 bases x limits around k",
                     viol, time.time() - t0, [cases[40], cases[400]], exhaustive=True)
     t0 = time.time()
-    pool = ["10.0.0.0 0.0.1.3", "20.0.0.0 0.0.2.3", "10.0.0.0 0.0.0.255", "10.0.0.0 0.0.255.3", "1.2.3.4 0.0.0.0", "10.0.0.0 0.255.0.255", "10.0.0.0 0.0.3.3"]
+    pool = ["10.0.0.0 0.0.1.3", "20.0.0.0 0.0.2.3", "10.0.0.0 0.0.0.255", "10.0.0.0 0.0.255.3", "1.2.3.4 0.0.0.0", "10.0.0.0 0.255.0.255", "10.0.0.0 0.0.3.3",
+            "10.0.1.0 0.0.0.255", "20.0.0.0 0.0.1.3", "limit=0", "limit=1"]
     hist = [(h, q) for n in (2, 3) for h in itertools.product(pool, repeat=n) for q in (True, False)]
     if chk.tier == "quick":
         hist = hist[::2]
